@@ -26,6 +26,55 @@ add("C01", EXPL,
     "itself). Texts further than the bound from every base are not explored.",
     "DESIGN.md section 4 C01")
 
+TECH_INPUT = ("bounded exhaustive enumeration of the stated input-deviation space, every case executed "
+              "on the real code and judged by an independent reference model (stateless explicit "
+              "enumeration, no sampling)")
+add("C02", EXPL, TECH_INPUT,
+    "For every country a residue-complete BBAN family (all 97 values of the mod-97 residue) x all 100 "
+    "check-digit pairs is executed through IBAN.from_bban and IBAN(); the verdict can only depend on "
+    "residue and pair, so the 97x100 grid per country is the complete abstract space.",
+    "Trusts the reference mod-97 arithmetic (digit-string long division) in mc/ref/iban.py.",
+    "DESIGN.md section 4 C02")
+add("C03", EXPL, TECH_INPUT,
+    "Every position >= 2 x every ordered same-kind character pair and every adjacent same-kind "
+    "transposition on reference-valid IBANs of every country under two (thorough: five) right-context "
+    "fillers; each mutated text must be rejected by IBAN().",
+    "One error per text; valid side built with reference check digits; bases must be accepted first.",
+    "DESIGN.md section 4 C03")
+add("C04", EXPL, TECH_INPUT,
+    "Every text within one edit over the wide alphabet of 8-/11-character base BICs, every length, "
+    "all 1296 country-field pairs, through four entry points in both compliance modes, compared "
+    "with an explicit per-position ISO 9362 grammar.",
+    "Trusts mc/ref/bic.py and pycountry's iso3166-1.json as the ISO 3166 code list.",
+    "DESIGN.md section 4 C04")
+add("C05", EXPL, TECH_INPUT,
+    "The C01 and C04 deviation families through all validating entry points (6 for IBAN, 5 for BIC): "
+    "nothing but SchwiftyException escapes, is_valid never raises, entry points agree, and a raised "
+    "class names a defect the reference finds present (permissive predicate).",
+    "Trusts the defect predicates of mc/ref; national defects judged by mc/ref/nat.py / bbk.py, "
+    "abstentions not judged.",
+    "DESIGN.md section 4 C05")
+add("C06", EXPL, TECH_INPUT,
+    "For the 22 countries every value of the check field for every body one substitution away from "
+    "four bases, wrapped in reference check digits, through three entry points against published "
+    "rules re-implemented with hard-coded field layouts; all other countries: flag must not matter; "
+    "all countries: accepted with flag => accepted without.",
+    "Trusts mc/ref/nat.py (written from the published rules, compared with the library on every case).",
+    "DESIGN.md section 4 C06")
+add("C07", EXPL, TECH_INPUT,
+    "Every implemented Bundesbank method on all account numbers within 2 (thorough 3) digit changes of "
+    "landmark bases, and every German bank code of the registry through the public IBAN API with "
+    "reference-accepted and -rejected accounts; unlisted neighbours and unimplemented methods must accept.",
+    "Trusts mc/ref/bbk.py; the reference abstains where the published text has a second variant the "
+    "property does not demand (13/63/76).",
+    "DESIGN.md section 4 C07")
+add("C08", EXPL, TECH_INPUT,
+    "Full product of a 12-string menu per component over the three generate() arguments for every "
+    "country, plus from_components for the other component kinds, compared with a reference assembly "
+    "(positions, padding, split, over-length class).",
+    "Trusts mc/ref/gen.py; the ambiguous 'combined bank code + branch code' input is excluded.",
+    "DESIGN.md section 4 C08")
+
 NOT_APPLICABLE = {
 }
 
